@@ -143,7 +143,8 @@ def gen_layered(rng, nvars=None, per_layer=None, dom_max=None, cost_lo=-5, cost_
         for b in range(I.nbase):
             hs = [H[k][b] for k in range(n + 1) if H[k][b] is not None]
             # admissible for every depth at which b may occur; infeasible states get a low bound
-            I.rub.append((max(hs) + extra) if hs else -1000)
+            e = extra if rk != 3 else rng.choice([0, 0, 1, 3, 8, 15])       # 3 = loose, state-dependent (inconsistent) slack
+            I.rub.append((max(hs) + e) if hs else -1000)
         if not depth_free:
             pass
     dk = dominance if dominance is not None else rng.choice([0, 0, 1, 2])
